@@ -52,6 +52,14 @@ class Rec:
         self.t0 = time.time()
         self.extra: dict = {}
         self.rank = 0  # global enumeration index of the current case (smallest counterexample wins)
+        # known findings may be pinned to the exact violating instances seen in a completed thorough run
+        self.known_instances = None
+        kp = self.cfg.get("known_instances")
+        if kp and os.path.exists(kp):
+            with open(kp) as f:
+                self.known_instances = set(f.read().split())
+        self.dump_instances = bool(self.cfg.get("dump_instances"))
+        self.instances: set = set()
 
     # --- counters -------------------------------------------------------------------------------
     def count(self, key: str, n: int = 1) -> None:
@@ -70,7 +78,12 @@ class Rec:
         if n == 0 or n % stride == (self.seed * 37 + 11) % stride:
             self.samples.append(jsonable(case))
 
-    def violation(self, sig: str, case, msg: str = "", expected=None, observed=None) -> None:
+    def violation(self, sig: str, case, msg: str = "", expected=None, observed=None, instance: str | None = None) -> None:
+        if instance is not None:
+            if self.dump_instances:
+                self.instances.add(instance)
+            if self.known_instances is not None and instance not in self.known_instances:
+                sig += "|unlisted-instance"
         self.vcount[sig] += 1
         if sig not in self.viol:
             self.viol[sig] = {
@@ -97,6 +110,7 @@ class Rec:
             "exhaustive": self.exhaustive,
             "bound": self.bound,
             "extra": self.extra,
+            "instances": sorted(self.instances),
             "wall_s": round(time.time() - self.t0, 3),
         }
 
